@@ -3,6 +3,7 @@
 // One command per line, same commands as oracle/drv_rectclip.ml.
 #include "common.h"
 #include <sys/resource.h>
+#include <unistd.h>
 using namespace Clipper2Lib;
 using namespace vfh;
 
@@ -35,12 +36,21 @@ static void dump_heap(std::ostream& os, RectClip64& rc) {
 }
 #endif
 
+// a command that does not finish within CX_CMD_SECONDS (a loop of the library that no longer ends) ends the process with status 124
+// after the lines already produced have been flushed, so that the caller can tell which input line it was
+#ifndef CX_CMD_SECONDS
+#define CX_CMD_SECONDS 4
+#endif
+static void on_alarm(int) { std::cout.flush(); _exit(124); }
+
 int main() {
+  std::signal(SIGALRM, on_alarm);
 #if !defined(__SANITIZE_ADDRESS__) && !defined(__SANITIZE_THREAD__)
   { struct rlimit rl; rl.rlim_cur = rl.rlim_max = (rlim_t)3 << 30; setrlimit(RLIMIT_AS, &rl); }   // runaway loops end in bad_alloc
 #endif
   return main_loop([](Toks& t, std::ostream& os) {
     const std::string cmd = t.next();
+    struct Watch { Watch() { alarm(CX_CMD_SECONDS); } ~Watch() { alarm(0); } } watch;
     if (cmd == "CLIP") { Rect64 r = rd_rect(t); Paths64 ps = t.paths(); os << "OK "; put(os, RectClip(r, ps)); }
 #ifndef CX_RECT_API_ONLY   // everything below needs private members / file-local functions
     else if (cmd == "CLIPX") {
